@@ -28,6 +28,9 @@ type SSCase struct {
 	Peers []PeerSpec `json:"peers"` // kinds honest | garbage (gk: hdr | mpt | blk) | silent
 	Batch int        `json:"batch"` // at most this many headers / trie nodes per answer (0: as many as asked)
 	Order string     `json:"order"` // trie nodes of an answer: asc | desc
+	// Early: the FIRST peer (kind silent: stage headers; kind hdronly: it serves headers only, stage trie nodes) sends an
+	// unsolicited block command before the other peers connect
+	Early bool `json:"early"`
 }
 
 func ssProto(ssi, mtb int) func(*config.Blockchain) {
@@ -62,7 +65,7 @@ func (sc *scenario) installSS(c SSCase) {
 		return true
 	}
 	sc.onGetHeaders = func(p *peer, g *payload.GetBlockByIndex) {
-		if !p.responsive() {
+		if !p.responsive() && p.spec.Kind != "hdronly" {
 			return
 		}
 		cnt := int(g.Count)
@@ -152,7 +155,7 @@ func runStateSync(t *testing.T, c SSCase, seed int64) ([]map[string]any, map[str
 	steps := []Step{}
 	for i, p := range c.Peers {
 		p.Has = [][2]int{{1, c.N}}
-		if p.Kind == "silent" {
+		if p.Kind == "silent" || p.Kind == "hdronly" {
 			p.Has = nil
 		}
 		p.Adv = c.N
@@ -166,6 +169,10 @@ func runStateSync(t *testing.T, c SSCase, seed int64) ([]map[string]any, map[str
 		steps = append(steps, Step{Op: "connect", P: i + 1})
 		if i == 0 && p.Kind == "garbage" { // its answers arrive before anybody else's
 			steps = append(steps, Step{Op: "sync"}, Step{Op: "sync"}, Step{Op: "sync"})
+		}
+		if i == 0 && c.Early {
+			steps = append(steps, Step{Op: "sync"}, Step{Op: "sync"}, Step{Op: "sync"}, Step{Op: "push", P: 1, Blocks: []int{max(1, P-1)}},
+				Step{Op: "sync"})
 		}
 	}
 	sp := Scenario{Name: c.Name, H0: 0, Peers: peers, Steps: steps}
